@@ -403,4 +403,4 @@ def run(prog, rep, tier):
     check_estimators(prog, rep)
     check_kinship(prog, rep)
     check_labels(prog, rep)
-    wire(prog, rep, "C13", 5, 105)
+    wire(prog, rep, "C13", 5, 105, 3)
